@@ -1,4 +1,7 @@
 import XyzModel.Gen.Default
 import XyzModel.Gen.Extracted
 import XyzModel.Batch
+import XyzModel.Nest
+import XyzModel.Core
+import XyzModel.Value
 import XyzModel.Drv
